@@ -86,7 +86,7 @@ GROUP_PROPS = {"syntax": {"C01", "C02", "C03", "C04", "C10", "C20"}, "rename": {
                # pins of hand-modelled code (xlate/pins.spec): nothing generated; a differing pin means three seeds of correspondence
                "pin_text": {"C13", "C14", "C15", "C19", "C20"}, "pin_vfs": {"C13", "C15", "C20"}, "pin_uf": {"C09"}, "pin_collect": {"C10", "C11"},
                "pin_db": {"C11"}, "pin_project": {"C17"}, "pin_imports": {"C17", "C08"}, "pin_search": {"C06"}, "pin_fields": {"C18"},
-               "pin_scope": {"C05", "C06", "C07", "C18"}, "pin_server": {"C13", "C15"}}
+               "pin_scope": {"C05", "C06", "C07", "C18"}, "pin_server": {"C13", "C15"}, "pin_graph": {"C17", "C08"}}
 
 
 def groups_of(prop):
